@@ -13,6 +13,7 @@ mod inv;
 mod json;
 mod ksys;
 mod msys;
+mod pair;
 mod rt;
 mod ssys;
 mod sweeps;
@@ -235,8 +236,27 @@ fn dispatch(a: &Args, replay: Option<(Vec<String>, String)>) -> ! {
             }
         }};
     }
+    macro_rules! gok {
+        ($t:ty) => {{
+            if a.num("pair", 0) > 0 {
+                let s1 = ksys::make::<$t>(a);
+                let mut s2 = ksys::make::<$t>(a);
+                s2.hint = a.num("hint2", s1.hint as u64) as usize;
+                let symmetric = s2.hint == s1.hint;
+                let p = pair::PairSys { a: s1, b: s2, symmetric };
+                match &replay {
+                    None => run_bfs(p, a),
+                    Some((h, sig)) => run_replay(p, a, h, sig),
+                }
+            } else {
+                go!(ksys::make::<$t>(a))
+            }
+        }};
+    }
     match sys.as_str() {
         "maptree" | "maplist" | "settree" | "setlist" => msys_dispatch(a, &sys, replay),
+        "ktree" if a.num("pair", 0) > 0 => gok!(ksys::KT),
+        "klist" if a.num("pair", 0) > 0 => gok!(ksys::KL),
         "ktree" => go!(ksys::make::<ksys::KT>(a)),
         "klist" => go!(ksys::make::<ksys::KL>(a)),
         "ktreew" => go!(ksys::make::<ksys::KTW>(a)),
@@ -275,6 +295,16 @@ fn msys_dispatch(a: &Args, sys: &str, replay: Option<(Vec<String>, String)>) -> 
     let inj = a.num("inject", 0) as u32;
     macro_rules! go {
         ($t:ty) => {{
+            if a.num("pair", 0) > 0 {
+                let hint2 = a.num("hint2", hint as u64) as usize;
+                let s1: MSys<$t> = MSys { n, hint, mode, f: f.clone(), prop, inj_budget: inj, _p: Default::default() };
+                let s2: MSys<$t> = MSys { n, hint: hint2, mode, f: f.clone(), prop, inj_budget: inj, _p: Default::default() };
+                let p = pair::PairSys { a: s1, b: s2, symmetric: hint2 == hint };
+                match &replay {
+                    None => run_bfs(p, a),
+                    Some((h, sig)) => run_replay(p, a, h, sig),
+                }
+            }
             let s: MSys<$t> = MSys { n, hint, mode, f, prop, inj_budget: inj, _p: Default::default() };
             match &replay {
                 None if a.cmd == "family" && a.num("sparse", 0) > 0 => run_family(s, a, family::m_histories_queries(&family_sizes(a), sys.starts_with("set"))),
